@@ -447,6 +447,7 @@ ebpps_sketch<T,A> ebpps_sketch<T,A>::deserialize(std::istream& is, const SerDe& 
   const uint8_t family = read<uint8_t>(is);
   const uint8_t flags = read<uint8_t>(is);
   const uint32_t k = read<uint32_t>(is);
+  if (!is.good()) throw std::runtime_error("error reading from std::istream");
 
   check_k(k);
   check_family_and_serialization_version(family, ser_ver);
@@ -461,6 +462,7 @@ ebpps_sketch<T,A> ebpps_sketch<T,A>::deserialize(std::istream& is, const SerDe& 
   const double cumulative_wt = read<double>(is);
   const double wt_max = read<double>(is);
   const double rho = read<double>(is);
+  if (!is.good()) throw std::runtime_error("error reading from std::istream");
 
   auto sample = ebpps_sample<T,A>::deserialize(is, sd, allocator);
 
